@@ -82,7 +82,7 @@ def main():
             "guard": "pytest_language_server_verif",
             "enable": "RUSTFLAGS=\"--cfg pytest_language_server_verif\" (set by ./check for the solver build; the harness crate mounts /repo/src/** by #[path])",
             "baseline_off_cmd": "cd /repo && cargo nextest run --workspace --no-fail-fast --tool-config-file pb:/w/lib/nextest.toml --profile pb --test-threads 8 --offline",
-            "source_commits": ["12fd1b6", "7a5d2c5"],
+            "source_commits": ["12fd1b6", "7a5d2c5", "f9643ed"],
             "add_only": True,
         },
         "engines": [
